@@ -127,12 +127,15 @@ def check_log(path, run_name, stdout_is_tty, res, counters, seen, full, stderr_i
             if not agrees:
                 res.violation("c09:choice", "%s: AutoStream::choice = %s, the documented precedence gives %s" % (ctx, d["choice"], want), check="c09", case=case)
                 continue
-            if d["auto_current_choice"] != current_of(want):
+            # (Always and AlwaysAnsi are the same mode on this platform; either name may be reported for it)
+            def same_mode(got, exp):
+                return got == exp or (got in ("Always", "AlwaysAnsi") and exp in ("Always", "AlwaysAnsi"))
+            if not same_mode(d["auto_current_choice"], current_of(want)):
                 res.violation("c09:auto-current-choice", "%s: auto(..).current_choice() = %s, expected %s" % (ctx, d["auto_current_choice"], current_of(want)), check="c09", case=case)
-            if d["new_global_current_choice"] != current_of(want):
+            if not same_mode(d["new_global_current_choice"], current_of(want)):
                 res.violation("c09:new-global-current-choice", "%s: new(stream, global()).current_choice() = %s, expected %s" % (ctx, d["new_global_current_choice"], current_of(want)), check="c09", case=case)
             # (Auto = the child did not make this observation for this stream kind)
-            if d.get("new_auto_current_choice", "Auto") not in ("Auto", current_of(want)):
+            if d.get("new_auto_current_choice", "Auto") != "Auto" and not same_mode(d["new_auto_current_choice"], current_of(want)):
                 res.violation("c09:new-auto-current-choice", "%s: new(stream, ColorChoice::Auto).current_choice() = %s, expected %s" % (ctx, d["new_auto_current_choice"], current_of(want)), check="c09", case=case)
             want_text = "X" if want == "Never" else PROBE_TEXT
             if d["adapted"] != want_text:
